@@ -51,6 +51,7 @@ type c06Req struct {
 	hdr                    http.Header
 	body                   []byte
 	host                   string
+	chunked                bool // the body arrives with Transfer-Encoding: chunked (no declared length)
 }
 
 func (r *c06Req) clone() *c06Req {
@@ -82,6 +83,11 @@ func (r *c06Req) toFilterInput() *httpprot.Request {
 	stdr := httptest.NewRequest(r.method, target, body)
 	stdr.Header = r.hdr.Clone()
 	stdr.Host = r.host
+	if r.chunked && len(r.body) > 0 {
+		// what net/http's server hands over for a chunked request body
+		stdr.ContentLength = -1
+		stdr.TransferEncoding = []string{"chunked"}
+	}
 	stdr.Body = readers.NewByteCountReader(stdr.Body)
 	req, _ := httpprot.NewRequest(stdr)
 	if err := req.FetchPayload(0); err != nil {
@@ -399,6 +405,9 @@ func TestVerifC06(t *testing.T) {
 		scopes := [][]string{nil, {"a", "b"}}[c.Choose(2, "scopes")]
 		presign := c.Choose(2, "presign") == 1
 		base := &c06Req{method: method, path: paths[pi][1], rawQuery: query, host: "h.example", hdr: http.Header{}, body: bodies[bi]}
+		if bi > 0 {
+			base.chunked = c.Choose(2, "body-arrives-chunked") == 1
+		}
 		base.hdr["X-A"] = []string{" v1   x ", "v2"}
 		base.hdr.Set("X-B", "b")
 		opts := c06SignOpts{keyID: "k1", secret: "secret-one", scopes: scopes, when: time.Now(), presign: presign, expires: 300}
@@ -445,6 +454,13 @@ func TestVerifC06(t *testing.T) {
 					return false
 				}
 				r.body = []byte("injected")
+				return true
+			}},
+			{"chunked-body-added", func(r *c06Req) bool {
+				if len(r.body) != 0 {
+					return false
+				}
+				r.body, r.chunked = []byte("injected"), true
 				return true
 			}},
 			{"body-removed", func(r *c06Req) bool {
